@@ -500,8 +500,11 @@ theorem ns_strLoop : ∀ (n start : Nat) (a : St), nu a + 1 ≤ n → NS a (strL
         · have hp := nextByte_progress false a h hz
           generalize hst1 : (if ((nextByte false a).2.eof || decide ((nextByte false a).1 = 10)) = true
               then syntaxError (nextByte false a).2 else (nextByte false a).2) = st1 at h2
-          have h3 : NS st1 (if (nextByte false a).1 = 92 then (nextByte false st1).2 else st1) :=
-            ns_ite _ (ns_nextByte false st1) (NS.refl st1)
+          have h3 : NS st1 (if (nextByte false a).1 = 92 then
+                (if (escapedNewlineIsError && decide ((nextByte false st1).1 = 10)) = true
+                  then syntaxError (nextByte false st1).2 else (nextByte false st1).2) else st1) :=
+            ns_ite _ (ns_ite _ ((ns_nextByte false st1).trans (ns_syntaxError _)) (ns_nextByte false st1))
+              (NS.refl st1)
           have := h2.nu
           have := h3.nu
           exact ((h1.trans h2).trans h3).trans (ih _ _ (by omega))
